@@ -24,6 +24,9 @@ class ImplWorld:
     def assert_fact(self, t, append=True):
         args = [self.term(x) for x in (t[2] if t[0] == 'f' else ())]
         self.yp.assert_fact(self.yp.atom(t[1]), args, append)
+        # the argument list belongs to the caller, who may reuse it (a row buffer refilled for the
+        # next fact): the stored fact must not depend on it
+        args[:] = ['overwritten by the caller'] * len(args)
 
     def start(self, goal, under=None):
         """suspended enumeration of goal; -> handle"""
